@@ -8,18 +8,6 @@ Arguments union : simpl never.
 
 Definition of_opt (o : option Q) : result Q := match o with Some v => Ok v | None => Err EMissing end.
 
-Lemma lookup_dict_set {A} (d : list (ident * A)) n v x :
-  lookup (dict_set d n v) x = if N.eqb n x then Some v else lookup d x.
-Proof.
-  induction d as [|[y a] d IH]; cbn.
-  - reflexivity.
-  - destruct (N.eqb y n) eqn:Eyn; cbn.
-    + apply N.eqb_eq in Eyn; subst y. destruct (N.eqb n x); reflexivity.
-    + rewrite IH. destruct (N.eqb y x) eqn:Eyx; auto.
-      destruct (N.eqb n x) eqn:Enx; auto.
-      apply N.eqb_eq in Eyx, Enx. subst. rewrite N.eqb_refl in Eyn. discriminate.
-Qed.
-
 Lemma map_fst_dict_set {A} (d : list (ident * A)) n v :
   map fst (dict_set d n v) = if mem n (map fst d) then map fst d else map fst d ++ [n].
 Proof.
@@ -93,6 +81,7 @@ Lemma eval_agree env1 env2 e :
 Proof.
   induction e; cbn; intros H; auto;
     try (rewrite IHe1, IHe2 by (intros; apply H; apply in_or_app; auto); reflexivity).
+  rewrite IHe by auto. reflexivity.
 Qed.
 
 Lemma eval_some_vars env e v :
@@ -103,6 +92,11 @@ Proof.
   - destruct Hy as [<-|[]]. eauto.
   - destruct (eval env e1) eqn:E1; [|discriminate]. destruct (eval env e2) eqn:E2; [|discriminate].
     apply in_app_or in Hy as [Hy|Hy]; eauto.
+  - destruct (eval env e1) eqn:E1; [|discriminate]. destruct (eval env e2) eqn:E2; [|discriminate].
+    apply in_app_or in Hy as [Hy|Hy]; eauto.
+  - destruct (eval env e1) eqn:E1; [|discriminate]. destruct (eval env e2) eqn:E2; [|discriminate].
+    apply in_app_or in Hy as [Hy|Hy]; eauto.
+  - destruct (Qeq_bool q 0); [discriminate|]. destruct (eval env e) eqn:E1; [|discriminate]. eauto.
   - destruct (eval env e1) eqn:E1; [|discriminate]. destruct (eval env e2) eqn:E2; [|discriminate].
     apply in_app_or in Hy as [Hy|Hy]; eauto.
   - destruct (eval env e1) eqn:E1; [|discriminate]. destruct (eval env e2) eqn:E2; [|discriminate].
